@@ -116,3 +116,52 @@ Example select_read_only_nonvacuous :
   = (Ok [1], SState st [CCursor; CSeek "a"; CCursor; CSeek "a"; CNext (Some "a"); CNext (Some "ab");
                         CNext (Some "abc"); CNext (Some "b")] None).
 Proof. vm_compute. reflexivity. Qed.
+
+(* ------------------------------------------------------------------ SELECT given as TEXT
+   (Model/PipelineS.v plans it, Model/PipelineIO.v says which ScanIO statement that is:
+   [text_stmt q] = the final plan of the accepted text over its scan node, or StRejected for a
+   text BuildPlan rejects).  From ANY storage state (data, earlier log, fault index), for every
+   oracle, both variants of the scans' end-of-scan memory, both modes, every batch size: the
+   data is unchanged and every call logged is Get / Cursor / Seek / Next. *)
+From Coq Require Import ZArith.
+From KV Require Import Model.Value Model.SelectPlans Model.Pipeline Model.PipelineS Model.PipelineIO
+                       Proofs.ScanSlotsProofs.
+From KV Require Import Model.ScanIO Model.Storage.
+Local Open Scope list_scope.
+
+
+Theorem select_text_read_only :
+  forall (fo : fops) (re : bytes -> bytes -> Value.res bool) (fmt_v : F fo -> string)
+         (remember_end : bool) (flt : kvp -> bool) (gkey : kvp -> bytes) (B fuel : nat) (m : mode)
+         (q : string) (s : ScanIO.stmt) (st : sstate),
+  text_stmt fo re fmt_v q = Some s ->
+  let out := ScanIO.run_stmt remember_end flt gkey B fuel m s st in
+  sdata (snd out) = sdata st /\
+  exists ext, slog (snd out) = slog st ++ ext /\ read_only ext = true.
+Proof. exact select_text_read_only_lemma. Qed.
+Print Assumptions select_text_read_only.
+
+(* a text the front end or buildFinalPlan rejects makes no storage call *)
+Theorem rejected_text_no_call :
+  forall (fo : fops) (re : bytes -> bytes -> Value.res bool) (fmt_v : F fo -> string)
+         (remember_end : bool) (flt : kvp -> bool) (gkey : kvp -> bytes) (B fuel : nat) (m : mode)
+         (q : string) (z : Z) (st : sstate),
+  plan_stmt_text fo re fmt_v q = STReject z ->
+  text_stmt fo re fmt_v q = Some StRejected /\
+  ScanIO.run_stmt remember_end flt gkey B fuel m StRejected st = (Storage.Err ESyntax, st).
+Proof. exact rejected_text_no_call_lemma. Qed.
+Print Assumptions rejected_text_no_call.
+
+Example select_text_read_only_nonvacuous :
+  forall (fo : fops) (re : bytes -> bytes -> Value.res bool) (fmt_v : F fo -> string),
+  let st := [("a","x");("ab","y");("abc","x");("b","x")] in
+  (exists fp, text_stmt fo re fmt_v "select value, count(1) where key ^= 'a' group by value limit 5" = Some (StSelect fp) /\
+     fp = FAggr (PScan (SPrefix "a")) false 0 (Some 5) /\
+     ScanIO.run_stmt false (fun _ => true) snd 2 30 BatchMode (StSelect fp) (sinit st None)
+     = (Storage.Ok [2], SState st [CCursor; CSeek "a"; CCursor; CSeek "a"; CNext (Some "a"); CNext (Some "ab");
+                                   CNext (Some "abc"); CNext (Some "b"); CNext None] None)) /\
+  text_stmt fo re fmt_v "select key, count(1) where key > ''" = Some StRejected.
+Proof.
+  intros. split; [|vm_compute; reflexivity].
+  eexists. split; [vm_compute; reflexivity|]. split; vm_compute; reflexivity.
+Qed.
